@@ -108,6 +108,20 @@ fn workloads() -> Vec<Workload> {
             description: "3 threads evaluate different trees against the same context".into(),
         });
     }
+    // W2b: one evaluation fails while the other succeeds (and a third one reads variables only)
+    {
+        let trees = [mk("y(1) + y(2) / (y(a) - a)"), mk("y(a) * z(3) + y(a)"), mk("a + len(b) + y(0)")];
+        let c = ctx.clone();
+        out.push(Workload {
+            name: "one-fails-others-succeed-3",
+            threads: 3,
+            body: Arc::new(move |tid| {
+                let r = trees[tid].eval_with_context(&*c);
+                (res_key(&r), take_calls())
+            }),
+            description: "3 threads, same context: thread 0 fails with a division by zero while threads 1 and 2 succeed".into(),
+        });
+    }
     // W3: string-level evaluation (tokenizing and tree building inside the threads)
     {
         let c = ctx.clone();
